@@ -55,6 +55,15 @@ Proof.
   rewrite int_body_d, dec_split, app_length. reflexivity.
 Qed.
 
+Lemma sign_zeros_parse k v : parse_dec (sign_of v ++ zeros k ++ mag_of v) = Some v.
+Proof.
+  unfold parse_dec. destruct v as [|p|p]; cbn [sign_of app].
+  - rewrite (parse_base_zeros 10 _ _ _ ltac:(lia) (mag_of_parse 0)). reflexivity.
+  - rewrite (parse_base_zeros 10 _ _ _ ltac:(lia) (mag_of_parse (Zpos p))). reflexivity.
+  - rewrite parse_base_minus.
+    rewrite (parse_base_zeros 10 _ _ _ ltac:(lia) (mag_of_parse (Zneg p))). reflexivity.
+Qed.
+
 (* '0' flag: the sign stays in front, the zeros go between sign and digits, the value reads back *)
 Theorem printf_zero_pad_l w v :
   render (directive false true w "d") [FInt v] =
@@ -63,11 +72,7 @@ Theorem printf_zero_pad_l w v :
 Proof.
   split.
   - rewrite printf_d_l. unfold pad_num. rewrite dec_split. reflexivity.
-  - unfold parse_dec. destruct v as [|p|p]; cbn [sign_of app].
-    + rewrite (parse_base_zeros 10 _ _ _ ltac:(lia) (mag_of_parse 0)). reflexivity.
-    + rewrite (parse_base_zeros 10 _ _ _ ltac:(lia) (mag_of_parse (Zpos p))). reflexivity.
-    + rewrite parse_base_minus.
-      rewrite (parse_base_zeros 10 _ _ _ ltac:(lia) (mag_of_parse (Zneg p))). reflexivity.
+  - apply sign_zeros_parse.
 Qed.
 
 (* unsigned views read back the value modulo 2^64 *)
@@ -146,7 +151,10 @@ Definition fmt_expected (v : value) (zero : bool) (w : nat) (tc : ascii) : bytes
   else if ceq tc "b" then
     let bin := render_base false 2 (u64 (value_int v)) in
     if zero && (0 <? w)%nat then ipad true w bin else bin
-  else match v with VInt z => ipad zero w (dec z) | VStr s => s end.
+  else match v with
+       | VInt z => if zero then pad_num false true w (sign_of z) (mag_of z) else ipad false w (dec z)
+       | VStr s => s
+       end.
 
 Lemma format_value_parse v zero w (tc : bytes) :
   match tc with [] => True | c :: _ => spec_letter c end ->
@@ -179,7 +187,8 @@ Theorem interp_default_is_dec z : format_value (VInt z) [] = dec z.
 Proof. reflexivity. Qed.
 
 Theorem interp_dec_width_l zero w z tc : tc = [] \/ tc = ["d"] -> (zero = true \/ w <> 0 \/ tc <> []) ->
-  format_value (VInt z) (ispec zero w tc) = ipad zero w (dec z).
+  format_value (VInt z) (ispec zero w tc) =
+  if zero then pad_num false true w (sign_of z) (mag_of z) else ipad false w (dec z).
 Proof.
   intros Htc NE. rewrite format_value_parse.
   - destruct Htc as [->| ->]; reflexivity.
@@ -249,14 +258,18 @@ Qed.
 
 Theorem interp_width_length_l zero w z tc : tc = [] \/ tc = ["d"] -> (zero = true \/ w <> 0 \/ tc <> []) ->
   List.length (format_value (VInt z) (ispec zero w tc)) = Nat.max w (List.length (dec z)).
-Proof. intros. rewrite interp_dec_width_l by assumption. apply ipad_length. Qed.
+Proof.
+  intros. rewrite interp_dec_width_l by assumption. destruct zero.
+  - rewrite pad_num_length, dec_split, app_length. reflexivity.
+  - apply ipad_length.
+Qed.
 
-(* zero padding of a non-negative value reads back; for negative values it does not (finding #27) *)
-Theorem interp_zero_pad_nonneg_l w z tc : (0 <= z)%Z -> tc = [] \/ tc = ["d"] ->
+(* zero padding: sign first, zeros between sign and digits, the text reads back as the value - for every
+   value, negative ones included (repaired by /repo commit 4cd822e, former finding #27) *)
+Theorem interp_zero_pad_l w z tc : tc = [] \/ tc = ["d"] ->
+  format_value (VInt z) (ispec true w tc) = sign_of z ++ zeros (w - List.length (dec z)) ++ mag_of z /\
   parse_dec (format_value (VInt z) (ispec true w tc)) = Some z.
 Proof.
-  intros Hz Htc. rewrite interp_dec_width_l by (try assumption; left; reflexivity).
-  unfold parse_dec. rewrite dec_nonneg by assumption.
-  rewrite (ipad_zero_parse 10 w _ (Z.to_N z)) by (try lia; apply render_base_roundtrip; lia).
-  rewrite Z2N.id by assumption. reflexivity.
+  intros Htc. rewrite interp_dec_width_l by (try assumption; left; reflexivity).
+  unfold pad_num. rewrite <- dec_split. split; [ reflexivity | apply sign_zeros_parse ].
 Qed.
